@@ -165,14 +165,13 @@ func zzDump(ctx *app.RequestContext) []byte {
 	ctx.Request.Header.Add("X-New", "nv")
 	add("reqheader-after-add", ctx.Request.Header.Header())
 	ctx.Response.Header.Add("X-New", "nv")
-	ctx.Response.Header.SetNoDefaultDate(true)
 	add("respheader-after-add", ctx.Response.Header.Header())
 	ctx.Request.Header.SetCookie("nc", "nv")
 	add("reqcookie-after-add", ctx.Request.Header.Peek("Cookie"))
 	return b
 }
 
-const zzProbe = "POST /probe?x=1 HTTP/1.1\r\nHost: p\r\nContent-Length: 2\r\n\r\nzz"
+const zzProbe = "POST /probe?x=1 HTTP/1.1\r\nHost: p\r\nx-low: v\r\nContent-Length: 2\r\n\r\nzz"
 
 // ZZ_C09_H1: a history of mutating API calls applied during request 1 (symbolic choice of two
 // mutators from the list, symbolic argument byte) must be invisible to request 2 on the same
@@ -184,6 +183,7 @@ func ZZ_C09_H1() {
 	arg := zz.Bytes("arg", 1)
 	zz.Assume(arg[0] > ' ' && arg[0] < 0x7f && arg[0] != ';' && arg[0] != '=' && arg[0] != '&' && arg[0] != '#' && arg[0] != '%')
 	panics := zz.Choose("recoveredPanic", 2) == 1
+	opts := zz.Choose("serverOptions", 3) // 0 defaults, 1 NoDefaultContentType, 2 DisableHeaderNamesNormalizing
 	run := func(withHistory bool) (dump []byte, out []byte) {
 		wire := []byte(zzProbe)
 		if withHistory {
@@ -212,6 +212,8 @@ func ZZ_C09_H1() {
 		}
 		s := zzNewServer(core)
 		s.IdleTimeout = 1
+		s.NoDefaultContentType = opts == 1
+		s.DisableHeaderNamesNormalizing = opts == 2
 		_ = s.Serve(context.Background(), standard.ZZNewConn(nc))
 		out = nc.Out
 		return
